@@ -371,3 +371,22 @@ _ADD5 = {
 }
 for _p, _t in _ADD5.items():
     META[_p]['text'] = META[_p]['text'] + _t
+
+_ADD6 = {
+    'C01': ' Iteration over the list, any / all over it and handles that are equal copies of a pending event are cases of the event-list interpreter.',
+    'C02': ' A test meant for plain numbers in front of a unit conversion must not accept the quantity classes (subclasses of float) (R2.10).',
+    'C03': ' No listener is notified while a non-reentrant lock of the producer is held (delivery rule shared with C08).',
+    'C04': ' A command that passed its refusals takes effect on every path (R4.13).',
+    'C05': ' Notifications of new event types fired inside error handlers are well typed for everything the handler can catch.',
+    'C06': ' Statistics register with the model under `is not None`, not under truthiness (shared with C11).',
+    'C08': ' Every class that can be subscribed compares by identity (R8.9); no listener is called under a non-reentrant lock.',
+    'C09': ' Whole-sequence checks (validation loop, any / all, converting comprehension) are element facts inside a later loop over the same sequence.',
+    'C10': ' Fields of another instance (merge) lie in the class invariant; every writer of the variance accumulator is held to the convex-step shape.',
+    'C11': ' Listener identity (R8.9) and model registration are shared with C08 / C06.',
+    'C12': ' restore_state is interpreted on the contract value of Random.getstate(): no genuine saved state is refused (R12.15), the given state reaches setstate once.',
+    'C14': ' No method reachable during construction renders `self` before the fields are complete (R14.10).',
+    'C15': ' The stream rules of C12 are shared (default next_int / next_bool on the interface).',
+    'C18': ' Declared bounds reach the stored fields unchanged for 0, -0.0, None, numbers and infinities (R18.14).',
+}
+for _p, _t in _ADD6.items():
+    META[_p]['text'] = META[_p]['text'] + _t
